@@ -348,6 +348,60 @@ class LoadPatchesOrder(_Sched):
                                                                         and all(b[1] == (0.25, 0.5, 1.0) for b in built)))]
 
 
+class RealPoolHistory(_Sched):
+    """Cross-validation with REAL worker processes (state inherited by forked workers is outside the Pool contract used
+    above): measure with binning A, then with binning B using k workers, on the same cached catalogs; the result must be
+    bit-identical to the sequential measurement of B on fresh caches."""
+
+    functions = (meas.autocorrelate, Catalog.build_trees)
+    modules = ()
+
+    def __init__(self):
+        self.name = "crossvalidation.real_pool_history"
+        self.bounds = "real catalogs (3 patches, 60 objects), real multiprocessing pools; first/second worker count in {1, 3} chosen by the engine"
+
+    def make_inputs(self, eng):
+        return {"w1": (1, 3)[eng.choose(2, "workers_first")], "w2": (1, 3)[eng.choose(2, "workers_second")]}
+
+    def concrete_inputs(self, m, inp):
+        return dict(inp)
+
+    def body(self, inp):
+        import shutil
+        import tempfile
+
+        import pandas as pd
+        from yaw import Catalog as RealCatalog, Configuration
+
+        tmp = tempfile.mkdtemp(prefix="c05r_", dir=runner.ROOT + "/scratch")
+        saved = (par._num_processes, par._get_physical_cores)
+        try:
+            rng = np.random.default_rng(11)
+            n = 60
+            df = pd.DataFrame(dict(ra=rng.uniform(0, 3, n), dec=rng.uniform(0, 3, n), z=rng.uniform(0.1, 0.9, n), w=rng.uniform(0.5, 2, n), p=np.arange(n) % 3))
+            rd = pd.DataFrame(dict(ra=rng.uniform(0, 3, n), dec=rng.uniform(0, 3, n), z=rng.uniform(0.1, 0.9, n), p=np.arange(n) % 3))
+            kw = dict(ra_name="ra", dec_name="dec", redshift_name="z", patch_name="p", max_workers=1)
+            mk = lambda tag: (RealCatalog.from_dataframe(tmp + "/d" + tag, df, weight_name="w", **kw), RealCatalog.from_dataframe(tmp + "/r" + tag, rd, **kw))
+            cfgA = Configuration.create(rmin=0.05, rmax=1.0, unit="deg", zmin=0.1, zmax=0.9, num_bins=2)
+            cfgB = Configuration.create(rmin=0.05, rmax=1.0, unit="deg", edges=[0.1, 0.35, 0.9])
+            d, r = mk("hist")
+            par._num_processes = lambda: inp["w1"]
+            meas.autocorrelate(cfgA, d, r, max_workers=inp["w1"])
+            par._num_processes = lambda: inp["w2"]
+            got = meas.autocorrelate(cfgB, d, r, max_workers=inp["w2"])[0]
+            fd, fr = mk("fresh")
+            par._num_processes = lambda: 1
+            ref = meas.autocorrelate(cfgB, fd, fr, max_workers=1)[0]
+            return [Check("dd_counts", cond=bool(np.array_equal(got.dd.counts.counts, ref.dd.counts.counts))),
+                    Check("dd_sum_weights", cond=bool(np.array_equal(got.dd.sum_weights.sum_weights1, ref.dd.sum_weights.sum_weights1))),
+                    Check("dr_counts", cond=bool(np.array_equal(got.dr.counts.counts, ref.dr.counts.counts))),
+                    Check("rr_counts", cond=bool(np.array_equal(got.rr.counts.counts, ref.rr.counts.counts))),
+                    Check("samples", cond=bool(np.array_equal(got.sample().samples, ref.sample().samples, equal_nan=True)))]
+        finally:
+            par._num_processes, par._get_physical_cores = saved
+            shutil.rmtree(tmp, ignore_errors=True)
+
+
 class GetSize(Harness):
     functions = (par.get_size,)
     modules = (par,)
@@ -382,7 +436,7 @@ class GetSize(Harness):
 
 
 def harnesses(tier):
-    hs = [Hist(3), CountPairs(2, True), CountPairs(2, False), LoadPatchesOrder(3), GetSize()]
+    hs = [Hist(3), CountPairs(2, True), CountPairs(2, False), LoadPatchesOrder(3), GetSize(), RealPoolHistory()]
     if tier == "thorough":
         hs += [Hist(4), LoadPatchesOrder(4), CountPairs(3, True)]
     hs += [Hist(2, wrong="reach")]
